@@ -24,7 +24,7 @@ with tempfile.TemporaryDirectory(prefix="vfy-seed-") as tmp:
         cmd = [V + "/bin/vchk", "-prop", p, "-tier", os.environ.get("TIER", "quick"), "-repo", REPO, "-verif", ev]
         for rel in files: cmd += ["-overlay", f"{rel}={os.path.join(tmp, rel)}"]
         r = subprocess.run(cmd, capture_output=True, text=True)
-        diags = re.findall(r'^DIAG property=\S+ rule=(\S+) construct=(.*?) at (\S+): (.*)$', r.stdout, re.M)
+        diags = re.findall(r'^DIAG property=\S+ rule=(\S+) construct=(.*?) at (\S*): (.*)$', r.stdout, re.M)
         if r.returncode != 0:
             caught[p] = [f"{a}:{b}" for a, b, _, _ in diags]
             print(f"CAUGHT by {p}: rc={r.returncode}")
